@@ -7,6 +7,7 @@ CONSTANTS
   WrapLen = 3
   ShareLen = 3
   MatchKey = "annotation"
+  ProjScan = "set"
   ClipKey = "uuid"
   ClipValidator = "after"
 CONSTRAINT Export
